@@ -49,18 +49,23 @@ func (repo *Repository) GetConfig(prefix string) (*Config, error) {
 	}
 
 	for len(out) > 0 {
-		keyEnd := bytes.IndexByte(out, '\n')
+		// Each record is terminated by NUL. Within a record, the key
+		// is separated from the value by LF; a key that has no value
+		// at all is emitted without the LF.
+		recordEnd := bytes.IndexByte(out, 0)
+		if recordEnd == -1 {
+			return nil, errors.New("invalid output from 'git config'")
+		}
+		record := out[:recordEnd]
+		out = out[recordEnd+1:]
+		var key, value string
+		keyEnd := bytes.IndexByte(record, '\n')
 		if keyEnd == -1 {
-			return nil, errors.New("invalid output from 'git config'")
+			key = string(record)
+		} else {
+			key = string(record[:keyEnd])
+			value = string(record[keyEnd+1:])
 		}
-		key := string(out[:keyEnd])
-		out = out[keyEnd+1:]
-		valueEnd := bytes.IndexByte(out, 0)
-		if valueEnd == -1 {
-			return nil, errors.New("invalid output from 'git config'")
-		}
-		value := string(out[:valueEnd])
-		out = out[valueEnd+1:]
 
 		ok, rest := configKeyMatchesPrefix(key, prefix)
 		if !ok {
